@@ -23,6 +23,9 @@ Families (case["family"]):
   "seq"   : sequences (.pvd of .vtu files written by fieldcompare; XDMF time series written by meshio): complete and
             abandoned iterations, steps kept by the caller, step-wise comparison, the CLI on the two sequence files,
             re-opening the file;
+  "smerge": StructuredFieldMerger (public; merges the pieces of parallel structured files): one merger object used for
+            several point / cell fields and again for the same field, a fresh merger; piece arrays and every array
+            handed out earlier are watched;
   "cli"   : `main([...])` in-process twice and in a subprocess for a catalogue of option combinations in file and dir
             mode (--diff, --junit-xml, tolerances, ignore/include/exclude options, --read-as) on mesh, table and sequence
             files, including failing and erroring runs (missing / corrupt / unsupported / mismatching files).
@@ -557,6 +560,7 @@ def gen_meshx_case(rng, api, storage=None):
                     "p": rng.randrange(len(PRED_SPECS)), "f": rng.randrange(4), "g": rng.randrange(4),
                     "same": rng.random() < 0.4})
     return {"kind": "xhist", "family": "meshx", "inputs": [a, b, c], "piece": mode, "special": special,
+            "structured": (api.gen_structured_input(rng)["structured"] if rng.random() < 0.5 else None),
             "storage": storage or rng.choice(STORAGES), "pick": rng.randrange(4), "style": mt["style"], "ops": ops}
 
 
@@ -587,6 +591,11 @@ def exec_meshx(case, root, api):
                                                            pick=case["pick"], dup_field=(how == "sharedfield"))
             add("ABC"[k], obj)
         add("A-twin", twin_sharing(pool[0][0]))          # source and reference built from the very same arrays
+        if case.get("structured"):
+            # a structured / rectilinear / image grid object of the public API (points cached, cells computed on access)
+            add("S", api.build_structured(case["structured"]))
+            add("S-again", api.build_structured(case["structured"]))
+            tags.append(f"meshx-structured-{case['structured']['k']}")
         old = os.getcwd()
         old_tmp = tempfile.tempdir
         os.chdir(dirs["cwd"])
@@ -969,9 +978,75 @@ def exec_cli(case, root, api):
     return w.complaints + complaints, tags, len(case["runs"])
 
 
+# ---------------------------------------------------------------- family "smerge" (StructuredFieldMerger)
+
+def gen_smerge_case(rng):
+    dim = rng.choice([1, 2, 2, 3])
+    decomp = [[rng.randint(1, 2) for _ in range(rng.randint(1, 3 if dim < 3 else 2))] for _ in range(dim)]
+    fields = []
+    for k in range(rng.randint(2, 4)):
+        fields.append({"where": rng.choice(["point", "cell"]), "dt": rng.choice(["f64", "f64", "f32", "i64"]),
+                       "tail": rng.choice([[], [], [2], [3]]), "base": rng.choice([0.5, 100.0, -7.0]) * (k + 1)})
+    order = [rng.randrange(len(fields)) for _ in range(rng.randint(len(fields), 2 * len(fields)))]
+    return {"kind": "xhist", "family": "smerge", "decomp": decomp, "fields": fields, "ops": [{"op": "merge", "k": k} for k in order]}
+
+
+def exec_smerge(case, root, api):
+    import itertools
+    from fieldcompare.mesh import StructuredFieldMerger
+    dirs = {k: os.path.join(root, k) for k in ("cwd", "tmp")}
+    for d in dirs.values():
+        os.makedirs(d)
+    w = Watch(dirs.values())
+    ev = Evals()
+    decomp = tuple(tuple(d) for d in case["decomp"])
+    dim = len(decomp)
+    tags = ["xhist-smerge", f"smerge-dim-{dim}", f"smerge-pieces-{'x'.join(str(len(d)) for d in decomp)}"]
+    locs = list(itertools.product(*[range(len(d)) for d in decomp]))
+    pieces = []
+    for k, f in enumerate(case["fields"]):
+        per = {}
+        for li, loc in enumerate(locs):
+            shape = [decomp[d][loc[d]] + (1 if f["where"] == "point" else 0) for d in range(dim)]
+            n = int(np.prod(shape))
+            tail = list(f["tail"])
+            vals = f["base"] + 1000.0 * li + np.arange(n * int(np.prod(tail or [1])), dtype=np.float64)
+            per[loc] = vals.reshape([n] + tail).astype(NP[f["dt"]])
+            w.hold((f"piece{k}", loc), per[loc])
+        pieces.append(per)
+    merger = StructuredFieldMerger(decomp)
+
+    def merge(m, k):
+        f = case["fields"][k]
+        fn = m.merge_point_fields if f["where"] == "point" else m.merge_cell_fields
+        return fn(lambda loc: pieces[k][tuple(loc)])
+
+    old = os.getcwd()
+    os.chdir(dirs["cwd"])
+    nok = 0
+    try:
+        for step, op in enumerate(case["ops"]):
+            k = op["k"]
+            w.before()
+            try:
+                r = merge(merger, k)                                   # the long-lived merger object
+                w.hold((f"result{step}", k), r)                        # what was handed out must stay as it is
+                ev.add(("merge", k), (r.dtype.str, r.shape, r.tobytes()))
+                r2 = merge(StructuredFieldMerger(decomp), k)           # a fresh one
+                ev.add(("merge", k), (r2.dtype.str, r2.shape, r2.tobytes()))
+                nok += 1
+                tags.append(f"smerge-{case['fields'][k]['where']}")
+            except Exception:  # noqa: BLE001
+                tags.append("smerge-raised")
+            w.check(f"step {step} (merge field {k})")
+    finally:
+        os.chdir(old)
+    return w.complaints + ev.complaints(), tags, nok
+
+
 # ---------------------------------------------------------------- evaluation, shrinking
 
-EXEC = {"tab": exec_tab, "meshx": exec_meshx, "seq": exec_seq, "cli": exec_cli}
+EXEC = {"tab": exec_tab, "meshx": exec_meshx, "seq": exec_seq, "cli": exec_cli, "smerge": exec_smerge}
 
 
 def complaints_of(case, api):
@@ -980,7 +1055,14 @@ def complaints_of(case, api):
         # floating-point error state and warning filters are NOT reset between the steps of one history (a leak made by
         # one step reaches the repetitions that follow), only after the whole history
         with np.errstate(), warnings.catch_warnings():
-            return EXEC[case["family"]](case, root, api)
+            s0 = proc_state()
+            comp, tags, nok = EXEC[case["family"]](case, root, api)
+            s1 = proc_state()
+            # informational only (the property does not talk about interpreter state): which process-wide settings a
+            # history left changed — cwd, environment, numpy error state / print options, root logger
+            changed = [k for k in s0 if s0[k] != s1[k]]
+            tags = list(tags) + (["proc-state-unchanged"] if not changed else [f"proc-state-changed-{k}" for k in changed])
+            return comp, tags, nok
     finally:
         shutil.rmtree(root, ignore_errors=True)
 
@@ -1022,16 +1104,19 @@ def run_all(ctx, api):
     rng = ctx.rng
     secs = {}
     t = time.time()
-    for k in range(ctx.scale(60, 3000)):
+    for k in range(ctx.scale(60, 2000)):
         eval_case(ctx, gen_tab_case(rng), api)
     secs["tab"], t = round(time.time() - t, 1), time.time()
-    for k in range(ctx.scale(42, 2500)):
+    for k in range(ctx.scale(42, 1500)):
         eval_case(ctx, gen_meshx_case(rng, api, storage=STORAGES[k % len(STORAGES)]), api)
     secs["meshx"], t = round(time.time() - t, 1), time.time()
-    for k in range(ctx.scale(9, 300)):
+    for k in range(ctx.scale(9, 200)):
         eval_case(ctx, gen_seq_case(rng, api, fmt=("xdmf" if k % 3 == 2 else "pvd")), api)
     secs["seq"], t = round(time.time() - t, 1), time.time()
-    for k in range(ctx.scale(3, 40)):
+    for k in range(ctx.scale(3, 30)):
         eval_case(ctx, gen_cli_case(rng, api), api)
-    secs["cli"] = round(time.time() - t, 1)
+    secs["cli"], t = round(time.time() - t, 1), time.time()
+    for k in range(ctx.scale(30, 1000)):
+        eval_case(ctx, gen_smerge_case(rng), api)
+    secs["smerge"] = round(time.time() - t, 1)
     ctx.notes.append(f"xhist (phase 6 G2) seconds per family: {secs}")
